@@ -111,6 +111,22 @@ Proof.
   split; [exact Hks|]. split; [rewrite H2; exact Hk2|]. rewrite (V k Hks), H2, Hk2. reflexivity.
 Qed.
 
+(** the same for an accessor whose output is any function of the locale it reads: the arm a plural macro selects, the
+    text a format macro produces *)
+Theorem accessor_renders_current_text {T : Type} (txt : N -> T) l0 con pre h fa fb post :
+  let a0 := a_run (a_init l0 con) (map erase pre) in
+  (h < a_nh a0)%nat -> fl_frozen fa = false ->
+  let xops := pre ++ XAcc h fa fb :: post in
+  let s := fst (xc_run (c_init l0 con, []) xops) in
+  let a := a_run (a_init l0 con) (map erase xops) in
+  let k := a_nacc a0 in
+  (k < c_nacc s)%nat /\ render_with txt s k = txt (a_loc a (a_hctx a0 h)).
+Proof.
+  intros a0 Hh Hf xops s a k.
+  destruct (accessor_reads_current l0 con pre h fa fb post Hh Hf) as [H1 [_ H3]].
+  split; [exact H1|]. unfold render_with. exact (f_equal txt H3).
+Qed.
+
 (** * Frozen observers never change *)
 Lemma xc_step_frozen xs x : exists t, snd (xc_step xs x) = snd xs ++ t.
 Proof.
@@ -180,6 +196,27 @@ Proof.
   destruct (R_w _ _ HR w Hw) as [B1 [B2 B3]].
   rewrite <- B3, B2, <- (R_loc _ _ HR _ B1), Eka.
   destruct (I2 w Hwa Hs) as [Q|Q]; [rewrite (F2 w) in Q; discriminate | exact Q].
+Qed.
+
+(** * Reading back a class of texts as a locale *)
+Lemma find_cand_sound t r cs c : find_cand t r cs = Some c -> tbl_get t c = r.
+Proof.
+  induction cs as [|x cs IH]; cbn [find_cand]; [discriminate|].
+  destruct (tbl_get t x =? r) eqn:E; [|exact IH]. intros H. injection H as <-. apply N.eqb_eq. exact E.
+Qed.
+
+(** with the expected locale [c] as first candidate, the rendering is read back as [c] exactly when it is the text of [c] *)
+Theorem decode_iff t c cs r :
+  (N.to_nat c < length t)%nat -> (length t <= 99)%nat ->
+  decode (Some t) (c :: cs) r = c <-> tbl_get t c = r.
+Proof.
+  intros Hc Hl. unfold decode. split.
+  - destruct (find_cand t r (c :: cs)) as [x|] eqn:F.
+    + intros <-. eapply find_cand_sound. exact F.
+    + destruct (find_cand t r (map N.of_nat (seq 0 (length t)))) as [x|] eqn:G.
+      * intros <-. eapply find_cand_sound. exact G.
+      * intros E. subst c. cbn in Hc. lia.
+  - intros E. cbn [find_cand]. apply N.eqb_eq in E. rewrite E. reflexivity.
 Qed.
 
 (** * Non-vacuity *)
